@@ -541,7 +541,14 @@ def i_pointwise(F, res):
     if f0 is None:
         res.add([finding("I-POINTWISE", key, "crates/tx3-tir/src/model/assets.rs", "CanonicalAssets does not implement Neg")])
         return
-    bodies = [f0] + [c for c in F.fns.values() if c.get("owner") == f0["path"]]
+    def want_n(t, callee):
+        return callee["crate"] == "tx3_tir" and not callee.get("impl_trait") and len(callee["blocks"]) <= 120
+    _KEEP.append(want_n)
+    # the module's helpers inlined (`Self(amounts::negate_all(self.0))`), with the closures they create
+    fi = mir.inline_calls(F, f0, want=want_n, depth=2)
+    bodies = with_closures(F, fi)
+    seen_b = {b["path"] for b in bodies}
+    bodies += [c for c in F.fns.values() if c.get("owner") == f0["path"] and c["path"] not in seen_b]
     negs, others = [], []
     for b in bodies:
         for bi, si, st in mir.stmts(b):
